@@ -109,8 +109,12 @@ def run(replay=None):
                     except Exception as e:
                         ck.violation(None, 'CompactSize decoder raised %r on %s' % (e, data.hex()))
         # varstr
+        # content classes include bytes that LOOK like text: ASCII hex digits, decimal digits, blanks (a bytes value is
+        # binary data whatever it looks like)
         for n in [0, 1, 2, 0xfc, 0xfd, 0xfe, 0xff, 0x100, 0xffff, 0x10000] + ([0x10001, 70000] if thorough else []):
-            for fill in ([0], [1], [0, 255]):
+            for fill in ([0], [1], [0, 255], list(b'ab'), list(b'01'), list(b'AbCdEf09'), list(b' '), list(b'0x')):
+                if n > 0x100 and fill[0] > 1 and fill != list(b'ab'):
+                    continue
                 d = bytes((fill * n)[:n])
                 add({'k': 'varstr', 'd': blist(d), 'got': blist(varstr(d))}, ('varstr', n, fill[0]),
                     'varstr(%d bytes of %s)' % (n, fill))
@@ -152,7 +156,7 @@ def run(replay=None):
                 ck.violation(None, 'decode_num(%s) raised %r' % (b.hex(), e))
         # ---------------- pushes
         for n in list(range(0, 521)) + [65535] + ([1000, 4096, 65534] if thorough else []):
-            d = bytes([rng.randrange(256) for _ in range(n)])
+            d = bytes([rng.randrange(256) for _ in range(n)]) if n % 3 else bytes(rng.choice(b'0123456789abcdef') for _ in range(n))
             p = data_pack(d)
             if n and p[-n:] != d or len(p) < n:
                 ck.violation(None, 'data_pack of %d bytes does not end with the data' % n)
@@ -169,6 +173,8 @@ def run(replay=None):
             return bytes([rng.randrange(256) for _ in range(n)])
         if style == 1:      # looks like a sequence of opcodes
             return bytes([rng.choice(ops[1:]) for _ in range(n)])
+        if rng.random() < 0.25:      # looks like text: ASCII hex digits / blanks
+            return bytes(rng.choice(b'0123456789abcdefABCDEF ') for _ in range(n))
         if style == 2:      # key-/signature-like first byte
             return bytes([rng.choice([2, 3, 4, 0x30])]) + bytes([rng.randrange(256) for _ in range(n - 1)])
         return bytes([rng.choice([0, 1, 0x51, 0x80, 0xff])] * n)
